@@ -331,8 +331,10 @@ func (qrf *QUICRandomFrames) buildInternal(cryptoData []byte, baseOffset uint64)
 	frameList = append(frameList, QUICFrameCrypto{Offset: int(offsetCryptoData), Length: 0}) // 0 means the remaining
 
 	// dry-run to determine the total length of all frames so far
-	// Use baseOffset=0 for the dry-run since we only care about byte count, not wire offsets.
-	dryrunPayload, err := frameList.build(cryptoData, 0)
+	// The byte count depends on the wire offsets: a CRYPTO frame's offset varint grows
+	// with baseOffset, so the dry-run must use the same baseOffset as the real build or
+	// every datagram after the first overshoots Length by the extra varint bytes.
+	dryrunPayload, err := frameList.build(cryptoData, baseOffset)
 	if err != nil {
 		return nil, err
 	}
